@@ -243,7 +243,7 @@ class Periodogram(FourierSpectrum):
 
     def __call__(self):
         psd = speriodogram(self.data, window=self.window, sampling=self.sampling,
-                             NFFT=self.NFFT, scale_by_freq=self.scale_by_freq,
+                             NFFT=self.NFFT, scale_by_freq=False,
                              detrend=self.detrend)
         self.psd = psd
         if self.scale_by_freq is True:
